@@ -56,6 +56,12 @@ type Stats struct {
 	Samples      [][]int
 }
 
+// FreeRuns > 0 switches every Explore call to the free-running race pass (that many runs per scenario).
+var FreeRuns int
+
+// FreeRunsDone counts bodies executed by the race pass.
+var FreeRunsDone int
+
 type Explorer struct {
 	Shard, NShards int
 	Deadline       time.Time
@@ -88,6 +94,16 @@ func (e *Explorer) Explore(sc Scenario, bound int) *Stats {
 	st := &Stats{Outcomes: map[string]int{}, BoundDone: -1}
 	e.stats = st
 	e.subtree = 0
+	if FreeRuns > 0 {
+		// race pass: the body runs free (plain goroutines, real primitives); nothing is judged here,
+		// the race detector of a -race build is the only observer
+		for i := 0; i < FreeRuns; i++ {
+			vsched.FreeRun(sc.Body)
+			FreeRunsDone++
+		}
+		st.BoundDone = bound
+		return st
+	}
 	// determinism proof: the default schedule twice must give identical decisions and log
 	o1 := vsched.Run(nil, sc.Horizon, sc.Body)
 	v1 := sc.Judge(o1)
